@@ -4,6 +4,7 @@
 # one package p is compiled (A) alone, (B) again into the same destination (outputs of the earlier run on disk),
 # (C) together with sibling files of the same package and another package.  The generated text of p/gen.go must be
 # byte-identical in A, B and C, and the helper identifiers declared in it must be pairwise distinct.
+# (D) over the outputs of a run whose neighbour file had another type, (E) with files left in <dst>_tmp by an interrupted run.
 # Prints DETERMINISM-OK or DETERMINISM-FAIL: <what>.
 export GOFLAGS=-mod=mod GOPROXY=off GOSUMDB=off GOTOOLCHAIN=local
 repo=$(realpath "$1")
@@ -101,4 +102,34 @@ if [ -n "$dups" ]; then echo "DETERMINISM-FAIL: helper identifiers declared twic
 n=$(grep -cE 'ɪʇ[0-9]+ :=' "$d/A.txt")
 if [ "$n" -lt 5 ]; then echo "DETERMINISM-FAIL: expected at least 5 helper declarations in p/gen.go, found $n (harness lost its subject)"; exit 1; fi
 if ! go build ./zzd/c/out/... 2>"$d/b2.err"; then echo "DETERMINISM-FAIL: generated packages do not build: $(head -3 "$d/b2.err" | tr '\n' ' ' | cut -c1-300)"; exit 1; fi
-echo "DETERMINISM-OK: p/gen.go byte-identical alone, re-run over earlier outputs, and among sibling files + another package; $n helper identifiers pairwise distinct"
+# (D) outputs of an earlier run with a *different* neighbour are on disk: the generated text depends on the whole package
+#     (the type of load() decides the iterator constructor), so it must be what a fresh compile of the current sources gives
+mkdir -p "$d/zzd/e/src/p"
+cat > "$d/zzd/e/src/p/gen.go" <<'GO'
+package p
+
+import (
+	. "github.com/goghcrow/go-co"
+)
+
+func Keys() Iter[int] {
+	for k := range load() {
+		Yield(k)
+	}
+	return nil
+}
+GO
+printf 'package p\n\ntype Items []string\n\nfunc load() Items { return Items{"a", "b"} }\n' > "$d/zzd/e/src/p/items.go"
+run "$d/zzd/e/src" "$d/zzd/e/out"
+sleep 1.1
+printf 'package p\n\ntype Items map[int]string\n\nfunc load() Items { return Items{1: "a"} }\n' > "$d/zzd/e/src/p/items.go"
+run "$d/zzd/e/src" "$d/zzd/e/out";   cp "$d/zzd/e/out/p/gen.go" "$d/D1.txt"
+run "$d/zzd/e/src" "$d/zzd/e/fresh"; cp "$d/zzd/e/fresh/p/gen.go" "$d/D2.txt"
+if ! cmp -s "$d/D1.txt" "$d/D2.txt"; then echo "DETERMINISM-FAIL: with outputs of an earlier run (other neighbour) on disk p/gen.go differs from a fresh compile of the same sources: $(diff "$d/D1.txt" "$d/D2.txt" | grep '^[<>]' | head -4 | tr '\n' ' ' | cut -c1-300)"; exit 1; fi
+# (E) files left in <dst>_tmp by an interrupted run must not reach the output
+mkdir -p "$d/zzd/a/out2_tmp/p"
+printf 'package p\n\nimport "github.com/goghcrow/go-co/seq"\n\nvar Stale seq.Iterator[int]\n' > "$d/zzd/a/out2_tmp/p/stale.go"
+run "$d/zzd/a/src" "$d/zzd/a/out2"
+if [ -e "$d/zzd/a/out2/p/stale.go" ]; then echo "DETERMINISM-FAIL: a file left in <dst>_tmp by an earlier (interrupted) run was emitted into the output: p/stale.go"; exit 1; fi
+if ! cmp -s "$d/A.txt" "$d/zzd/a/out2/p/gen.go"; then echo "DETERMINISM-FAIL: p/gen.go differs when <dst>_tmp holds files of an earlier run"; exit 1; fi
+echo "DETERMINISM-OK: p/gen.go byte-identical alone, re-run over earlier outputs, among sibling files + another package, over outputs of a run with another neighbour, and with leftovers in <dst>_tmp; $n helper identifiers pairwise distinct"
